@@ -252,6 +252,10 @@ func registerIntrinsics(e *Exec) {
 		return nil
 	}
 	in["vh:vhWatch"] = func(e *Exec, a []Value, _ *ssa.CallCommon) Value { return nil }
+	in["vh:vhSummaries"] = func(e *Exec, a []Value, _ *ssa.CallCommon) Value {
+		e.noSummaries = !a[0].(*Term).IsTrue()
+		return nil
+	}
 	in["vh:vhNote"] = func(e *Exec, a []Value, _ *ssa.CallCommon) Value { return nil }
 	in["vh:vhSymbolic"] = func(e *Exec, a []Value, _ *ssa.CallCommon) Value { return e.tb.True }
 
@@ -407,6 +411,38 @@ func registerLibStubs(e *Exec) {
 		return e.valEqAny(x.Val, y.Val)
 	}
 	in["errors.As"] = func(e *Exec, a []Value, call *ssa.CallCommon) Value { return e.tb.False }
+
+	// Verified summaries of the two hot pure helpers of the code under test. The real
+	// functions go through bits.Len64 (table lookup) and a division by 7; the summaries are
+	// the same function written as a sum of threshold tests, which the interval reasoner can
+	// bound ([1,10]) and the solver need not bit-blast a divider for. Every check that uses
+	// them also PROVES, on the current tree, that the real SSA of Sov/Soz equals the summary
+	// for all 2^64 arguments (harness VH_*_SUMMARY, which switches summaries off to reach the
+	// real code).
+	sovSummary := func(e *Exec, x *Term) *Term {
+		tb := e.tb
+		r := e.c64(1)
+		for k := 1; k <= 9; k++ {
+			r = tb.Add(r, tb.Ite(tb.Ule(tb.Const(64, uint64(1)<<uint(7*k)), x), e.c64(1), e.c64(0)))
+		}
+		return r
+	}
+	const rtPkg = "github.com/cosmos/cosmos-proto/runtime."
+	in[rtPkg+"Sov"] = func(e *Exec, a []Value, call *ssa.CallCommon) Value {
+		if e.noSummaries {
+			return e.callNoIntrinsic(e.funcByName(rtPkg+"Sov"), a)
+		}
+		return sovSummary(e, a[0].(*Term))
+	}
+	in[rtPkg+"Soz"] = func(e *Exec, a []Value, call *ssa.CallCommon) Value {
+		if e.noSummaries {
+			return e.callNoIntrinsic(e.funcByName(rtPkg+"Soz"), a)
+		}
+		x := a[0].(*Term)
+		tb := e.tb
+		z := tb.BvXor(tb.Shl(x, e.c64(1)), tb.Ashr(x, e.c64(63)))
+		return sovSummary(e, z)
+	}
 
 	// sync: single goroutine
 	in["(*sync.Mutex).Lock"] = nop
